@@ -247,6 +247,61 @@ def analyse_file(rel, raw):
     return sites, bad
 
 
+CHAN_FILE = "crates/server/src/channel/mod.rs"
+
+
+def analyse_chan_locks(rel, raw):
+    """per-channel async locks (`X.0.read().await` / `X.0.write().await`, X != self) of the channel manager: the lexical
+    region in which each guard is alive, and every further channel-lock acquisition (direct, or through a call of a
+    function of this file that takes one) inside such a region.  Holding at most one channel lock at a time is the
+    discipline under which Proofs/LockProgress.v proves deadlock freedom."""
+    src = blank(raw)
+    fns = functions(src)
+    pat = re.compile(r"(?<![\w.])(\w+)\s*\.\s*0\s*\.\s*(read|write)\s*\(\s*\)\s*\.\s*await\b")
+    sites = []
+    for m in pat.finditer(src):
+        if m.group(1) == "self":
+            continue            # the manager's own lock: only ever read-locked (checked below)
+        owner = [f for f in fns if f[1] < m.start() < f[2]]
+        if not owner:
+            raise Shape("%s: channel lock taken outside a function body" % rel)
+        fname, fs, fe = max(owner, key=lambda f: f[1])
+        line = src.count("\n", 0, m.start()) + 1
+        s0 = stmt_start(src, m.start(), fs)
+        head = src[s0:m.start()]
+        lm = re.match(r"\s*let\s+(mut\s+)?(\w+)\s*(:[^=]+)?=\s*$", head, flags=re.S)
+        e = stmt_end(src, m.end(), fe)
+        if lm and src[m.end():e].strip() == "":
+            var = lm.group(2)
+            bs, be = enclosing_block(src, m.start(), fs)
+            dm = re.compile(r"\bdrop\s*\(\s*" + re.escape(var) + r"\s*\)").search(src, e, be)
+            region = (m.end(), dm.start() if dm else be)
+            shape = "let"
+        elif lm:
+            raise Shape("%s:%d: channel lock bound by `let` with a tail the lint does not know" % (rel, line))
+        else:
+            region = (m.end(), e)
+            shape = "temporary"
+        sites.append({"fn": fname, "line": line, "mode": m.group(2), "shape": shape, "region": region, "start": m.start()})
+    takers = sorted({s["fn"] for s in sites})
+    nested = []
+    for s in sites:
+        a, b = s["region"]
+        text = src[a:b]
+        for o in sites:
+            if o is not s and a <= o["start"] < b:
+                nested.append("%s:%d fn %s: channel lock (%s) still held when another channel lock is taken at line %d" % (
+                    rel, s["line"], s["fn"], s["mode"], o["line"]))
+        for f in takers:
+            for cm in re.finditer(r"(?<![\w])(self\s*\.|Self\s*::)\s*" + re.escape(f) + r"\s*\(", text):
+                nested.append("%s:%d fn %s: channel lock (%s) still held across the call of %s at line %d, which takes a channel lock" % (
+                    rel, s["line"], s["fn"], s["mode"], f, src.count("\n", 0, a + cm.start()) + 1))
+    writers = []
+    for m in re.finditer(r"(?<![\w.])self\s*\.\s*0\s*\.\s*(write|upgradable_read)\s*\(", src):
+        writers.append("%s:%d: the manager lock is write-locked (every handler holds it for reading: a writer queued behind a reader that re-enters the manager blocks both)" % (rel, src.count("\n", 0, m.start()) + 1))
+    return sites, nested, writers
+
+
 def analyse(repo):
     sites, bad = [], []
     for rel in FILES:
@@ -275,6 +330,15 @@ def gen(repo):
            "(* accesses whose shard guard is alive across an await point, and non-blocking lookups (the try_ family), which can miss a",
            "   present entry while its shard is locked *)",
            "Definition guard_across_await : list string := [" + ";\n  ".join(q(b) for b in bad) + "].", ""]
+    with open(os.path.join(repo, CHAN_FILE), encoding="utf-8") as f:
+        csites, nested, writers = analyse_chan_locks(CHAN_FILE, f.read())
+    if len(csites) < 8:
+        raise Shape("lock lint found only %d channel-lock acquisitions in %s" % (len(csites), CHAN_FILE))
+    out += ["(* acquisitions of a per-channel async lock (%s) *)" % ", ".join("%s:%d %s/%s" % (c["fn"], c["line"], c["mode"], c["shape"]) for c in csites),
+            "Definition chan_lock_sites : N := %d%%N." % len(csites), "",
+            "(* channel locks still held when another channel lock is taken (directly or through a call), and write-lockers of the",
+            "   manager-wide lock *)",
+            "Definition chan_lock_nested : list string := [" + ";\n  ".join(q(b) for b in nested + writers) + "].", ""]
     return "\n".join(out)
 
 
@@ -285,3 +349,8 @@ if __name__ == "__main__":
     for s in sites:
         print(s)
     print("BAD:", bad)
+    with open(os.path.join(repo, CHAN_FILE), encoding="utf-8") as f:
+        cs, nested, writers = analyse_chan_locks(CHAN_FILE, f.read())
+    for c in cs:
+        print({k: v for k, v in c.items() if k != "region"})
+    print("NESTED:", nested, writers)
